@@ -520,12 +520,105 @@ pub fn run(params: &Params) {
       }
     }
   }
+  // ---- endpoints as OTHER encoders of the same format write them ----
+  if ctx::choose(4) == 0 {
+    foreign_encoder_scenario(&issuer_core(&issuer.doc), &services[0], &model[&services[0]]);
+  }
   // ---- two services whose ids share DID and fragment and differ in the path (a document assembled elsewhere) ----
   if ctx::choose(4) == 0 {
     alias_scenario(&issuer_core(&issuer.doc), &services[0], &mut next_seq);
   }
   if nontrivial {
     ctx::mark_nontrivial();
+  }
+}
+
+fn zlib(data: &[u8], level: u32) -> Vec<u8> {
+  use std::io::Write;
+  let mut e = flate2::write::ZlibEncoder::new(Vec::new(), flate2::Compression::new(level));
+  e.write_all(data).expect("in-memory write");
+  e.finish().expect("in-memory finish")
+}
+
+fn unzlib(data: &[u8]) -> Option<Vec<u8>> {
+  use std::io::Read;
+  let mut out = Vec::new();
+  flate2::read::ZlibDecoder::new(data).read_to_end(&mut out).ok()?;
+  Some(out)
+}
+
+/// The issuer's service with its endpoint replaced by `endpoint_b64url` (the text after the data-URL prefix).
+fn with_endpoint(core: &CoreDocument, sid: &str, endpoint_b64url: &str) -> Option<CoreDocument> {
+  let mut v = serde_json::to_value(core).ok()?;
+  let a = v.get_mut("service")?.as_array_mut()?;
+  let svc = a.iter_mut().find(|s| s.get("id").and_then(|i| i.as_str()) == Some(sid))?;
+  svc["serviceEndpoint"] = format!("data:application/octet-stream;base64,{endpoint_b64url}").into();
+  CoreDocument::from_json_value(v).ok()
+}
+
+/// The same bitmap as another implementation of RevocationBitmap2022 may have written it: compressed at another zlib
+/// level, or serialised (standard Roaring format) with a RUN container. It must decode to the same set, and an update
+/// through the document must change exactly the requested indices.
+fn foreign_encoder_scenario(core: &CoreDocument, sid: &str, model: &BTreeSet<u32>) {
+  let ep = endpoint_of(core, sid);
+  let Some(raw) = super::b64url_decode(&ep).and_then(|z| unzlib(&z)) else { return };
+  match ctx::choose(2) {
+    0 => {
+      let level = [0u32, 1, 9][ctx::choose(3)];
+      ctx::stat("probe.endpoint_compressed_at_another_level");
+      ctx::sched("zlevel", level as u64);
+      let other = crate::core::b64::encode(zlib(&raw, level));
+      let Some(doc) = with_endpoint(core, sid, &other) else { return };
+      let got = ctx::catch(|| doc.resolve_revocation_bitmap(sid.into()).map_err(|e| e.to_string())).unwrap_or_else(|p| Err(format!("panic: {p}")));
+      let qs: Vec<u32> = model.iter().copied().take(16).chain([0u32, 1, 65_536, u32::MAX]).collect();
+      check_bitmap(&format!("zlib-level-{level}"), got, model, &qs, &other);
+    }
+    _ => {
+      // one run [start, start + len] in the container of the high 16 bits `key`; standard format with run flags
+      let key: u16 = ctx::choose(3) as u16;
+      let start: u16 = ctx::choose(100) as u16;
+      let len_minus_one: u16 = 4096 + ctx::choose(200) as u16;
+      let mut bytes: Vec<u8> = Vec::new();
+      bytes.extend_from_slice(&(12347u32).to_le_bytes()); // SERIAL_COOKIE, (containers - 1) << 16 = 0
+      bytes.push(0b0000_0001); // run flag of container 0
+      bytes.extend_from_slice(&key.to_le_bytes());
+      bytes.extend_from_slice(&len_minus_one.to_le_bytes()); // cardinality - 1
+      bytes.extend_from_slice(&1u16.to_le_bytes()); // number of runs
+      bytes.extend_from_slice(&start.to_le_bytes());
+      bytes.extend_from_slice(&len_minus_one.to_le_bytes());
+      let base = (key as u32) << 16 | start as u32;
+      let set: BTreeSet<u32> = (base..=base + len_minus_one as u32).collect();
+      ctx::stat("probe.endpoint_with_run_container");
+      ctx::sched("runc", base as u64 ^ (len_minus_one as u64) << 32);
+      let ep2 = crate::core::b64::encode(zlib(&bytes, 6));
+      let Some(mut doc) = with_endpoint(core, sid, &ep2) else { return };
+      let qs: Vec<u32> = vec![base, base + 1, base + len_minus_one as u32, base + len_minus_one as u32 + 1, base.wrapping_sub(1), 1_000_000];
+      let got = ctx::catch(|| doc.resolve_revocation_bitmap(sid.into()).map_err(|e| e.to_string())).unwrap_or_else(|p| Err(format!("panic: {p}")));
+      if got.is_err() {
+        // a reader that does not support run containers at all says so here: not what this scenario is about
+        ctx::stat("observation.run_container_not_readable");
+        return;
+      }
+      check_bitmap("run-container", got, &set, &qs, &ep2);
+      // an update that does not touch the run's container
+      let far = 7_000_000 + ctx::choose(1000) as u32;
+      let unrevoke = ctx::choose(2) == 0;
+      let r = if unrevoke { doc.unrevoke_credentials(sid, &[far]) } else { doc.revoke_credentials(sid, &[far]) };
+      let mut want = set.clone();
+      if !unrevoke {
+        want.insert(far);
+      }
+      match r {
+        Err(e) => ctx::violation("C06", "C06.endpoint_round_trip", "run-container/update-fails", format!("update of a service read from a run-container endpoint failed: {e}")),
+        Ok(()) => {
+          let ep3 = endpoint_of(&doc, sid);
+          let got = ctx::catch(|| doc.resolve_revocation_bitmap(sid.into()).map_err(|e| e.to_string())).unwrap_or_else(|p| Err(format!("panic: {p}")));
+          let mut qs2 = qs.clone();
+          qs2.push(far);
+          check_bitmap("run-container/after-update", got, &want, &qs2, &ep3);
+        }
+      }
+    }
   }
 }
 
